@@ -131,6 +131,14 @@ def specItems (ctx : SCtx) : Nat → SRec
 /-- C05: extensibility facts of an item -/
 def projC05 (i : ItemF) : Bool × List ExtF := (i.nonExhaustive, i.fields.map (·.ext))
 
+/-- C05 by name: which named component carries which extension mark -/
+def projC05n (i : ItemF) : Bool × List (String × ExtF) := (i.nonExhaustive, i.fields.map fun f => (f.name, f.ext))
+
+/-- the same named marks, in any order (the order of the fields is C02's business) -/
+def sameC05n (o e : ItemF) : Bool :=
+  o.nonExhaustive == e.nonExhaustive && o.fields.length == e.fields.length &&
+    e.fields.all (fun f => o.fields.any (fun g => g.name == f.name && g.ext == f.ext))
+
 /-- C02: shape facts of an item -/
 def projC02 (i : ItemF) : ItemKind × Bool × List (String × String × Bool) :=
   (i.kind, i.isSet, i.fields.map fun f => (f.name, f.ty, f.hasDefault))
